@@ -295,7 +295,9 @@ func (l *VegasLimit) updateEstimatedLimit(startTime int64, rtt int64, inFlight i
 	}
 
 	newLimit = math.Max(1, math.Min(float64(l.maxLimit), newLimit))
-	newLimit = (1-l.smoothing)*l.estimatedLimit + l.smoothing*newLimit
+	// est + s*(new-est) instead of (1-s)*est + s*new: identical mathematically, but exact when
+	// new == est, so an unchanged target cannot shave the estimate through rounding.
+	newLimit = l.estimatedLimit + l.smoothing*(newLimit-l.estimatedLimit)
 
 	if int(newLimit) != int(l.estimatedLimit) && l.logger.IsDebugEnabled() {
 		l.logger.Debugf("New limit=%d, minRTT=%d ms, winRTT=%d ms, queueSize=%d",
